@@ -686,3 +686,25 @@ func TestC18History(t *testing.T) {
 		return keys
 	}})
 }
+
+
+// ---------------------------------------------------------------- C14 (end-to-end half)
+
+func TestC14History(t *testing.T) {
+	p := &world.Profile{Name: "attribution", MinGroups: 1, MaxGroups: 3, Auto: 1, Default: 1, MaxInit: 5, SmallGraces: true, Steps: 25,
+		Weights: map[string]int{"scan": 12, "addPods": 10, "replacePod": 8, "finishPods": 3, "targetUtil": 3, "schedule": 2, "launch": 2, "cordon": 1, "taintExt": 1, "advance": 1, "restart": 1, "oddPod": 3}}
+	col := newCollector(t, "C14", "end-to-end: along histories in which pods come, go and are re-created under the same name with a different selector / affinity / owner / static annotation, the number of pods and nodes each scan saw (count gauges set from the real filtered listers, which live across scans) equals the documented attribution; non-trivial = a scan after a same-name replacement that changed the pod's group, or with >= 2 groups sharing a label key; distinct by situation digest")
+	historyCheck(t, &historyOpts{prop: "C14", profile: p, col: col, classify: func(w *world.World, rec *world.ScanRecord) []string {
+		replaced := 0
+		for _, a := range w.Log {
+			if a.Op == "replacePod" {
+				replaced++
+			}
+		}
+		shared := len(w.Cfg.Groups) > 1 && w.Cfg.Groups[0].Opts.LabelKey == w.Cfg.Groups[1].Opts.LabelKey
+		if replaced > 0 || shared {
+			return []string{fmt.Sprintf("attr|replaced=%d|shared=%v|groups=%d", minI(replaced, 3), shared, len(w.Cfg.Groups))}
+		}
+		return nil
+	}})
+}
